@@ -512,6 +512,16 @@ func (vc *VC) epochBase(ep *Epoch, key string) Term {
 					}
 				}
 			}
+			if strings.HasPrefix(key, "M:") && strings.HasSuffix(key, "#card") && ki.sort == "(Array Int Int)" {
+				// finite-map facts of the maps stored in this base heap: the size is not negative, and an empty map has no key
+				vc.emit(fmt.Sprintf("(assert (forall ((m Int)) (! (>= (select %s m) 0) :pattern ((select %s m)))))", n, n))
+				hk := strings.TrimSuffix(key, "#card") + "#has"
+				if hki := vc.keys[hk]; hki != nil && strings.HasPrefix(hki.sort, "(Array Int (Array ") {
+					ksort := strings.TrimSuffix(strings.TrimPrefix(hki.sort, "(Array Int (Array "), " Bool))")
+					hb := vc.epochBase(ep, hk)
+					vc.emit(fmt.Sprintf("(assert (forall ((m Int) (k %s)) (! (=> (= (select %s m) 0) (not (select (select %s m) k))) :pattern ((select (select %s m) k)))))", ksort, n, hb, hb))
+				}
+			}
 			if it, ok := vc.keyInt[key]; ok {
 				switch ki.sort {
 				case "Int":
